@@ -88,6 +88,14 @@ func ellpsClause(r *vproto.Rng) string {
 		return "+a=" + ff(a, 3) + " +b=" + ff(rd(a*(1-1/(280+r.Float()*40)), 3), 3)
 	case 3:
 		return "" // default ellipsoid (WGS84)
+	case 4:
+		// a named ellipsoid with one of its axes/flattening given explicitly as well: the table row
+		// fills only what it defines (extend() in proj4js, the != 0 tests in DeriveConstants)
+		e := ellipsoids[r.Intn(len(ellipsoids))]
+		if r.Bool() {
+			return "+ellps=" + e + " +b=" + ff(rd(6356000+r.Float()*1500, 3), 3)
+		}
+		return "+ellps=" + e + " +rf=" + ff(rd(290+r.Float()*20, 6), 6)
 	default:
 		return "+ellps=" + ellipsoids[r.Intn(len(ellipsoids))]
 	}
@@ -235,6 +243,11 @@ func genSR(r *vproto.Rng, kind string, f frame, lonG, latG float64) string {
 		case 1:
 			l2 = -hemi * rd(r.Float()*math.Abs(l1)*0.8, 6) // one parallel on the other hemisphere (|l1| dominates)
 		}
+		if l1 != l2 && math.Abs(l1-l2) < 1 {
+			// parallels less than a degree apart make the cone constant a 0/0-like quotient: any two
+			// math libraries then differ by tens of µm; such cones are written as tangent cones
+			l2 = l1
+		}
 		b = append(b, "+lat_1="+ff(l1, 6))
 		if !(kind == "lcc" && l1 == l2 && r.Bool()) {
 			b = append(b, "+lat_2="+ff(l2, 6))
@@ -317,6 +330,11 @@ func corpus(w *bufio.Writer) {
 		put("parse | +proj=longlat +ellps=" + e + " +no_defs")
 	}
 	put("parse | +proj=longlat +ellps=plessis")
+	put("parse | +proj=longlat +ellps=bessel +b=6356078.963")
+	put("parse | +proj=longlat +ellps=clrk66 +rf=294.98")
+	put("parse | +proj=longlat +ellps=airy +rf=299.3249646")
+	put("parse | +proj=longlat +ellps=intl +a=6378388.5")
+	put("parse | +proj=longlat +datum=potsdam +b=6356078.963")
 	put("parse | +proj=longlat +ellps=nonesuch")
 	for _, d := range datums {
 		put("parse | +proj=longlat +datum=" + d)
